@@ -2,6 +2,7 @@ import RactorModel.Lemmas.Remote
 import RactorModel.Lemmas.Link
 import RactorModel.Lemmas.Mux
 import RactorModel.Lemmas.RacingScan
+import RactorModel.Lemmas.RemoteComplete
 import RactorModel.Extracted
 
 /-!
@@ -136,6 +137,31 @@ theorem replies_not_cross_wired (k k' : Nat) (ops : List Op) :
     ∀ q d, (q, d) ∈ n.delivered → (q, d) ∈ n.answered := by
   intro n q d h
   exact ((ninv_init k k').run ops).deliv _ h
+
+/-- (reply completeness) For every interleaving (any number of stages, outstanding / abandoned /
+unanswered calls, target exit) as long as the link is up: every answer the real actor gave has
+reached the caller that made the call, or that caller has given up, or the reply is still
+travelling (in a backward stage or in the proxy's mailbox). Hence at rest (mailbox and both pipes
+drained) every answered call whose caller still waits HAS its reply — no reply is lost or left
+pending by the proxy. -/
+theorem replies_complete_at_rest (k k' : Nat) (ops : List Op) :
+    let n := (Net.init k k').run ops
+    n.linkUp = true →
+      (∀ e ∈ n.answered, e ∈ n.delivered ∨ e.1 ∈ n.closed ∨
+        (∃ r ∈ n.back.contents, (r.gport, r.data) = e) ∨ (∃ m ∈ n.mbox, ∃ t, m.1 = .reply t e.2 e.1)) ∧
+      (n.quiet = true → ∀ e ∈ n.answered, e ∈ n.delivered ∨ e.1 ∈ n.closed) := by
+  intro n hl
+  have h := CInv.run ops (Net.init k k') hl (ninv_init k k') (cinv_init k k')
+  refine ⟨h.ans, ?_⟩
+  intro hq e he
+  simp only [Net.quiet, Bool.and_eq_true, List.isEmpty_iff] at hq
+  rcases h.ans e he with a | a | ⟨r, hr, _⟩ | ⟨m, hm, _⟩
+  · exact Or.inl a
+  · exact Or.inr a
+  · have : (Net.run (Net.init k k') ops).back.contents = [] := hq.2
+    rw [this] at hr; exact absurd hr (by simp)
+  · have : (Net.run (Net.init k k') ops).mbox = [] := hq.1.1
+    rw [this] at hm; exact absurd hm (by simp)
 
 /-- (at most one reply) No caller's port is ever served twice, and at any moment a reply
 port exists in at most one place — stored in the proxy, already served, or still travelling
@@ -554,6 +580,8 @@ def demo : Net :=
 example : demo.recvd = demo.sent ∧ demo.sent.length = 3 := by decide
 example : demo.delivered = [(0, 110)] ∧ demo.answered = [(1, 111), (0, 110)] := by decide
 example : demo.quiet = true ∧ demo.px.tag = 2 ∧ demo.px.pending = [] := by decide
+/-- reply completeness on the demo: the answer to the abandoned call was dropped, the other delivered -/
+example : demo.linkUp = true ∧ demo.closed = [1] ∧ ∀ e ∈ demo.answered, e ∈ demo.delivered ∨ e.1 ∈ demo.closed := by decide
 
 example : (Mirror.run {} [.spawn [1, 2], .pgJoin "" "g" [2, 3], .terminate [1], .pgLeave "" "g" [3]]).proxies = [2, 3] ∧
     (Mirror.run {} [.spawn [1, 2], .pgJoin "" "g" [2, 3], .terminate [1], .pgLeave "" "g" [3]]).members = [(("", "g"), 2)] := by
@@ -599,6 +627,7 @@ example :
 #print axioms C20.per_sender_order
 #print axioms C20.replies_not_cross_wired
 #print axioms C20.reply_at_most_once
+#print axioms C20.replies_complete_at_rest
 #print axioms C20.ok_model
 #print axioms C20.proxies_mirror_control_stream
 #print axioms C20.groups_mirror_control_stream
